@@ -83,6 +83,7 @@ class Ctx:
         self.axioms = []         # facts about symbolic constants / uninterpreted cos,sin (not path condition)
         self.reached = False
         self.fork_cap = 64
+        self.ibounds = {}        # integer input name -> [lo, hi] (None = unbounded): cheap interval pre-check for branches
 
     # -- solver plumbing
     def _check(self, *extra):
@@ -119,6 +120,125 @@ class Ctx:
             e = z3.BoolVal(e)
         self.solver.add(e)
         self.pc.append(e)
+        self._learn(e)
+
+    # -- interval reasoning on integer inputs: decides most loop comparisons without a solver call
+    def _ival(self, t):
+        """(lo, hi) of an Int/Real term built from numerals, bounded Int inputs, +, -, * by numeral; None if unknown"""
+        if z3.is_int_value(t):
+            v = t.as_long()
+            return (v, v)
+        if z3.is_rational_value(t):
+            v = Fraction(t.numerator_as_long(), t.denominator_as_long())
+            return (v, v)
+        k = t.decl().kind()
+        ch = t.children()
+        if k == z3.Z3_OP_UNINTERPRETED and not ch:
+            b = self.ibounds.get(t.decl().name())
+            return tuple(b) if b is not None else None
+        if k == z3.Z3_OP_TO_REAL:
+            return self._ival(ch[0])
+        if k == z3.Z3_OP_ADD:
+            lo = hi = 0
+            for c in ch:
+                r = self._ival(c)
+                if r is None:
+                    return None
+                lo = None if (lo is None or r[0] is None) else lo + r[0]
+                hi = None if (hi is None or r[1] is None) else hi + r[1]
+            return (lo, hi)
+        if k == z3.Z3_OP_UMINUS:
+            r = self._ival(ch[0])
+            return None if r is None else (None if r[1] is None else -r[1], None if r[0] is None else -r[0])
+        if k == z3.Z3_OP_SUB and len(ch) == 2:
+            a, b = self._ival(ch[0]), self._ival(ch[1])
+            if a is None or b is None:
+                return None
+            return (None if (a[0] is None or b[1] is None) else a[0] - b[1], None if (a[1] is None or b[0] is None) else a[1] - b[0])
+        if k == z3.Z3_OP_MUL and len(ch) == 2:
+            a, b = self._ival(ch[0]), self._ival(ch[1])
+            if a is None or b is None:
+                return None
+            if a[0] is not None and a[0] == a[1]:
+                c, r = a[0], b
+            elif b[0] is not None and b[0] == b[1]:
+                c, r = b[0], a
+            else:
+                return None
+            lo = None if r[0] is None else c * r[0]
+            hi = None if r[1] is None else c * r[1]
+            if c < 0:
+                lo, hi = hi, lo
+            return (lo, hi) if c != 0 else (0, 0)
+        return None
+
+    def _decide(self, e):
+        """truth of a comparison by intervals, or None"""
+        if not self.ibounds:
+            return None
+        k = e.decl().kind()
+        if k == z3.Z3_OP_NOT:
+            r = self._decide(e.children()[0])
+            return None if r is None else (not r)
+        if k not in (z3.Z3_OP_LE, z3.Z3_OP_LT, z3.Z3_OP_GE, z3.Z3_OP_GT, z3.Z3_OP_EQ):
+            return None
+        a, b = (self._ival(c) for c in e.children())
+        if a is None or b is None:
+            return None
+        if k in (z3.Z3_OP_GE, z3.Z3_OP_GT):
+            a, b = b, a
+            k = z3.Z3_OP_LE if k == z3.Z3_OP_GE else z3.Z3_OP_LT
+        if k == z3.Z3_OP_LE:            # a <= b
+            if a[1] is not None and b[0] is not None and a[1] <= b[0]:
+                return True
+            if a[0] is not None and b[1] is not None and a[0] > b[1]:
+                return False
+        elif k == z3.Z3_OP_LT:
+            if a[1] is not None and b[0] is not None and a[1] < b[0]:
+                return True
+            if a[0] is not None and b[1] is not None and a[0] >= b[1]:
+                return False
+        elif k == z3.Z3_OP_EQ:
+            if (a[1] is not None and b[0] is not None and a[1] < b[0]) or (a[0] is not None and b[1] is not None and a[0] > b[1]):
+                return False
+        return None
+
+    def _learn(self, e):
+        """tighten the bounds of an integer input from a simple comparison  N <= c / N >= c / Not(...) / N == c"""
+        if not self.ibounds:
+            return
+        neg = False
+        if e.decl().kind() == z3.Z3_OP_NOT:
+            neg = True
+            e = e.children()[0]
+        k = e.decl().kind()
+        if k not in (z3.Z3_OP_LE, z3.Z3_OP_GE, z3.Z3_OP_LT, z3.Z3_OP_GT, z3.Z3_OP_EQ):
+            return
+        a, b = e.children()
+        if z3.is_int_value(a) and z3.is_const(b):
+            a, b = b, a
+            k = {z3.Z3_OP_LE: z3.Z3_OP_GE, z3.Z3_OP_GE: z3.Z3_OP_LE, z3.Z3_OP_LT: z3.Z3_OP_GT, z3.Z3_OP_GT: z3.Z3_OP_LT}.get(k, k)
+        if not (z3.is_const(a) and a.decl().kind() == z3.Z3_OP_UNINTERPRETED and z3.is_int_value(b)):
+            return
+        bd = self.ibounds.get(a.decl().name())
+        if bd is None:
+            return
+        c = b.as_long()
+        if neg:
+            if k == z3.Z3_OP_EQ:
+                return
+            k, c = {z3.Z3_OP_LE: (z3.Z3_OP_GE, c + 1), z3.Z3_OP_GE: (z3.Z3_OP_LE, c - 1),
+                    z3.Z3_OP_LT: (z3.Z3_OP_GE, c), z3.Z3_OP_GT: (z3.Z3_OP_LE, c)}[k]
+        if k == z3.Z3_OP_LT:
+            k, c = z3.Z3_OP_LE, c - 1
+        if k == z3.Z3_OP_GT:
+            k, c = z3.Z3_OP_GE, c + 1
+        if k == z3.Z3_OP_LE:
+            bd[1] = c if bd[1] is None else min(bd[1], c)
+        elif k == z3.Z3_OP_GE:
+            bd[0] = c if bd[0] is None else max(bd[0], c)
+        elif k == z3.Z3_OP_EQ:
+            bd[0] = bd[1] = c
 
     def _feasible(self, e):
         r, _ = self._check(e)
@@ -132,6 +252,10 @@ class Ctx:
             return True
         if z3.is_false(e):
             return False
+        d = self._decide(e)
+        if d is not None:
+            self.stats["interval_decided"] = self.stats.get("interval_decided", 0) + 1
+            return d
         i = len(self.trace)
         if i < len(self.prefix):
             v = self.prefix[i]
@@ -215,6 +339,7 @@ class Ctx:
     def int(self, name, lo=None, hi=None):
         c = z3.Int(name)
         self.inputs[name] = c
+        self.ibounds[name] = [None, None]
         if lo is not None:
             self.assume(c >= lo)
         if hi is not None:
@@ -286,7 +411,11 @@ class Ctx:
             for n in names:
                 c = self.inputs[n]
                 if c.sort() == z3.IntSort():
-                    v = z3.IntVal(rng.randint(-3, 3))
+                    b = self.ibounds.get(n) or [None, None]
+                    if b[0] is not None and b[1] is not None and b[1] - b[0] > 6:
+                        v = z3.IntVal(rng.randint(b[0], b[1]))          # bounded input: anywhere in its range
+                    else:
+                        v = z3.IntVal(rng.randint(-3, 3))
                 elif c.sort() == z3.RealSort():
                     v = realval(Fraction(rng.randint(-12, 12), 4))
                 else:
